@@ -52,6 +52,8 @@ void vf_probe_note(uint64_t n, uint64_t c0, uint64_t c1, uint64_t c2, uint64_t c
 uint64_t vf_probe_calls();
 uint64_t vf_probe_arg(uint64_t call, uint64_t k);
 void vf_probe_reset();
+void vf_probe_note_r(uint64_t n, double c0, double c1, double c2, double c3, double c4);
+double vf_probe_arg_r(uint64_t call, uint64_t k);
 
 // footprint recorder (C16): objects declared shared, then every store inside a region that hits a shared object or
 // any non-stack object is counted; mutable globals / atomics / thread_locals touched are counted by vf_region_bad
